@@ -129,12 +129,26 @@ def table_category_use(ctx):
     rows = sorted((tuple(strip_ver(g) for g in summarize(p)[0]), strip_ver(summarize(p)[1])) for p in w.paths)
     G = "get_category_group(a1)"
     opt_form = len(rows) == 2 and rows[0][0] == ("variant(%s)=None" % G,) and rows[0][1].startswith("Result::Err{0: Error::syntax(") and rows[1] == (("variant(%s)=Some" % G,), "Result::Ok{0: builder_for_group(%s as Some.0)}" % G)
-    if rs == exp or opt_form:
+    # `get_category_group(s).map(builder_for_group)`: Ok is mapped through the function, Err passed on as it is
+    map_form = [strip_ver(x) for x in rs] == ["Result::map(%s, fn builder_for_group)" % G]
+    # the builder handed out already wrapped as a CharacterClassBuilder: `Ok(builder_for_group(g).into())`, where the
+    # conversion is the crate's own From impl that puts the list into the CodePointInversionListBuilder variant
+    wrapped = False
+    if "CharacterClassBuilder" in strip_lt(b.locals[0]["ty"]) and _from_wraps(ctx):
+        unw = sorted(re.sub(r"conv<[^()]*>\((builder_for_group\(.*\))\)\}$", r"\1}", x) for x in rs)
+        wrapped = unw == exp
+    if rs == exp or opt_form or map_form or wrapped:
         out.append(ok("category_group|ok"))
         out.append(ok("category_group|err-propagated"))
     else:
         out.append(bad("category_group", "category_group must be builder_for_group(get_category_group(s)?) ; found %s" % rs, b.loc()))
     return out
+
+
+def _from_wraps(ctx):
+    """Every `From<..> for CharacterClassBuilder` of the crate puts its argument into the inversion-list variant."""
+    bodies = [x for x in ctx.f.bodies if x.path.startswith("<character_class::CharacterClassBuilder as std::convert::From<")]
+    return bool(bodies) and all([strip_ver(render(w.ret)) for w in ctx.walk(x).paths] == ["CharacterClassBuilder::CodePointInversionListBuilder{0: a1}"] for x in bodies)
 
 
 def _loc(ctx, path):
@@ -232,6 +246,20 @@ def block_key(ctx):
         return [missing(P)]
     se = ctx.senv(b)
     sites = call_sites(b, lambda r: r.endswith("::replace") and "str" in r)
+    collected = None
+    if not sites:
+        # `ALL_BLOCKS.iter().map(|block| (key, block)).collect()`: the pair is made in the closure, the table is
+        # everything the closure yields, in order (a later pair of the same key replaces an earlier one, as with
+        # insert) - nothing may stand between the walk and collect
+        rets = set(strip_ver(render(w.ret)) for w in ctx.walk(b).paths)
+        m = re.match(r"^BlockLookup::BlockLookup\{blocks: Iterator::collect\(Iterator::map\((?:iter\()?ALL_BLOCKS\)?, closure (BlockLookup::new::\{closure#\d+\})\[\]\)\)\}$", next(iter(rets))) if len(rets) == 1 else None
+        cb = ctx.body("category::" + m.group(1)) if m else None
+        if cb is not None:
+            crow = [summarize(w) for w in ctx.walk(cb).paths]
+            csites = call_sites(cb, lambda r: r.endswith("::replace") and "str" in r)
+            if len(crow) == 1 and not crow[0][0] and len(csites) == 1:
+                collected = (cb, strip_ver(crow[0][1]))
+                b_main, b, se, sites = b, cb, ctx.senv(cb), csites
     if len(sites) != 1:
         out.append(bad("strip-call", "BlockLookup::new must derive the key by one str::replace; found %d" % len(sites), b.loc()))
     else:
@@ -254,7 +282,13 @@ def block_key(ctx):
         # the inserted key is the result of that replace and the value the same block
         ins = call_sites(b, lambda r: "HashMap" in r and r.endswith("::insert"))
         pushes = [s for s in call_sites(b, lambda r: r.endswith("::push") and "Vec" in r) if show(se.operand(s[1]["args"][1])).startswith("(")]
-        if not ins and len(pushes) == 1:
+        if collected is not None:
+            pair = re.match(r"^\((replace\(.*\)), (a\d)\)$", collected[1])
+            if pair and show(args[0]).startswith(pair.group(2) + "."):
+                out.append(ok("insert-pair"))
+            else:
+                out.append(bad("insert-pair", "the closure must pair the stripped name of a block with that block; found %s" % collected[1][:120], b.loc()))
+        elif not ins and len(pushes) == 1:
             # the table kept as a vector of (key, block) pairs, sorted by key and searched by bisection
             pa = se.operand(pushes[0][1]["args"][1])
             items = pa[1] if pa[0] == "tuple" else ()
@@ -273,7 +307,7 @@ def block_key(ctx):
         else:
             out.append(bad("insert-pair", "expected exactly one HashMap::insert in BlockLookup::new", b.loc()))
         # the loop ranges over ALL_BLOCKS
-        if any("ALL_BLOCKS" in show(se.operand(a)) for bb2, t2 in b.calls() for a in t2["args"]):
+        if collected is not None or any("ALL_BLOCKS" in show(se.operand(a)) for bb2, t2 in b.calls() for a in t2["args"]):
             out.append(ok("iterates-all-blocks"))
         else:
             out.append(bad("iterates-all-blocks", "BlockLookup::new must iterate block::ALL_BLOCKS", b.loc()))
